@@ -27,12 +27,12 @@ def stdlib_paths():
     """pure-Python stdlib modules that are interpreted from the source of the interpreter that runs the repo."""
     cache = os.path.join(VERIF, '.stdlib_paths.json')
     try:
-        out = subprocess.check_output([PY_REAL, '-c', 'import colorsys,json;print(json.dumps({"colorsys":colorsys.__file__}))'],
+        out = subprocess.check_output([PY_REAL, '-c', 'import colorsys,bisect,json;print(json.dumps({"colorsys":colorsys.__file__,"bisect_py":bisect.__file__}))'],
                                       timeout=60)
         return json.loads(out)
     except Exception:
-        import colorsys
-        return {'colorsys': colorsys.__file__}
+        import colorsys, bisect
+        return {'colorsys': colorsys.__file__, 'bisect_py': bisect.__file__}
 
 
 _STD = None
